@@ -210,7 +210,9 @@ def l1_typestate(ctx, RL):
                         n_reads += 1
                         ctx.inst(R)
                         ctx.touch(f)
-                        g = {(r.r(c), pol) for c, pol, s in guards_at(f['body'], n)}
+                        # the guards that dominate the `bcn - 1` computation itself (it may sit in one arm of a selection)
+                        tgt_ = next((x for x in walk(n['args'][1]) if x.get('k') == 'bin' and x.get('op') == '-' and 'bcn' in r.r(x.get('lhs'))), n)
+                        g = {(r.r(c), pol) for c, pol, s in guards_at(f['body'], tgt_)}
                         if not any(pol and c.endswith('lp)') or pol and c.endswith('::lp') for c, pol in g):
                             ctx.report(R, f, n, short_fn(fid) + ' bkrep_stack[bcn-1]', 'top frame accessed without lp being set')
     ctx.require(n_reads >= 3, 'accesses of bkrep_stack[bcn-1] not found')
@@ -340,11 +342,26 @@ def l3_shape(ctx, RL):
                             (LP, '=', '*'): boolform.all_of(HIT, N(LC)),
                             (TOP + 'lc)', '--', ''): boolform.all_of(HIT, LC),
                             (PC, '=', TOP + 'start)'): boolform.all_of(HIT, LC)}, ignore_value=(LP,))
-    g = ctx.fn(I + 'Repeat(unsigned short)')
+    g = ctx.F['functions'].get(I + 'Repeat(unsigned short)')
+    repeat_helper = g
     ctx.inst(R)
-    eff = summ.summary(ctx, g, asserts='ignore').effect_conditions()
-    if {k[:4] for k in eff} != {('write', REPC, '=', '$0'), ('write', REP, '=', '1')} or any(boolform.equivalent(c, boolform.T) is not True for c in eff.values()):
-        ctx.report(R, g, g['body'], 'Repeat', 'Repeat(n) is not {repc = n; rep = true}')
+    inlined_count = {}
+    if g is not None:
+        eff = summ.summary(ctx, g, asserts='ignore').effect_conditions()
+        if {k[:4] for k in eff} != {('write', REPC, '=', '$0'), ('write', REP, '=', '1')} or any(boolform.equivalent(c, boolform.T) is not True for c in eff.values()):
+            ctx.report(R, g, g['body'], 'Repeat', 'Repeat(n) is not {repc = n; rep = true}')
+    else:
+        # the helper was inlined into the rep handlers: each of them performs {repc = count; rep = true} itself
+        hs = [x for x in ctx.F['functions'].values() if x.get('cls') == 'Teakra::Interpreter' and x['name'] in ('rep', 'rep_r6')]
+        ctx.require(len(hs) >= 3, 'neither Interpreter::Repeat nor the rep handlers found')
+        for h in hs:
+            eff = summ.summary(ctx, h, asserts='ignore').effect_conditions()
+            w = {k[:4]: c for k, c in eff.items() if k[0] == 'write'}
+            cnt = [k[3] for k in w if k[1] == REPC and k[2] == '=']
+            if len(cnt) != 1 or ('write', REP, '=', '1') not in w or len(w) != 2 or any(boolform.equivalent(c, boolform.T) is not True for c in w.values()):
+                ctx.report(R, h, h['body'], short_fn(h['id'])[-30:], 'rep handler does not perform exactly {repc = count; rep = true}')
+            else:
+                inlined_count[h['id']] = cnt[0]
     g = ctx.fn(I + 'BlockRepeat(unsigned short,unsigned int)')
     ctx.inst(R)
     t = render_stmt(g['body'], g)
@@ -362,10 +379,16 @@ def l3_shape(ctx, RL):
             ctx.touch(h)
             rh = Renderer(h)
             calls = [n for n in walk(h['body']) if n.get('k') == 'call' and n.get('name') in ('Repeat', 'BlockRepeat')]
-            if len(calls) != 1:
+            if repeat_helper is None and nm == 'rep':
+                if h['id'] not in inlined_count:
+                    continue            # reported above
+                calls = [h['body']]
+                a0 = inlined_count[h['id']]
+            elif len(calls) != 1:
                 ctx.report(R, h, h['body'], short_fn(h['id'])[-30:], 'does not call Repeat/BlockRepeat exactly once')
                 continue
-            a0 = rh.r(calls[0]['args'][0])
+            else:
+                a0 = rh.r(calls[0]['args'][0])
             if calls[0].get('name') == 'BlockRepeat' and len(calls[0].get('args', [])) > 1:
                 # the end address comes from the instruction's address operand(s); the only machine state that may enter
                 # is the program counter (the upper bits of a 16-bit address operand are those of the current pc)
